@@ -273,9 +273,8 @@ func (p *poller) readWriteLoop() {
 								// else the data left would never be flushed.
 								c.ResetPollerEvent()
 							}
-						} else {
-							c.onConnected(c, nil)
-							c.onConnected = nil
+						} else if onConnected := c.takeOnConnected(); onConnected != nil {
+							onConnected(c, nil)
 							c.resetRead()
 						}
 					}
